@@ -89,6 +89,10 @@ type propMeta struct {
 
 var root = "/verif"
 
+// repoDir is the go-mail tree under test: /repo, unless VERIF_REPO points the checks at a scratch
+// copy (used to try deliberately broken trees, and by background runs on a snapshot).
+var repoDir = "/repo"
+
 func infra(f string, a ...any) {
 	fmt.Fprintf(os.Stderr, "INFRA: "+f+"\n", a...)
 	os.Exit(2)
@@ -121,13 +125,24 @@ func run(dir string, env []string, name string, args ...string) (string, error) 
 func build(id string, race bool) string {
 	simDir := filepath.Join(root, "sim")
 	bdir := filepath.Join(root, ".build")
+	if d := os.Getenv("VERIF_BUILD_DIR"); d != "" {
+		bdir = d
+	}
 	_ = os.MkdirAll(bdir, 0o755)
-	if b, err := os.ReadFile("/repo/go.sum"); err == nil {
+	if b, err := os.ReadFile(filepath.Join(repoDir, "go.sum")); err == nil && repoDir == "/repo" {
 		_ = os.WriteFile(filepath.Join(simDir, "go.sum"), b, 0o644)
 	}
 	bin := filepath.Join(bdir, "props.test")
 	args := []string{"test", "-c", "-o", bin}
 	cleanup := func() {}
+	if !race && repoDir != "/repo" {
+		mf, err := altModfile(simDir, repoDir)
+		if err != nil {
+			infra("%v", err)
+		}
+		cleanup = func() { os.Remove(mf); os.Remove(strings.TrimSuffix(mf, ".mod") + ".sum") }
+		args = []string{"test", "-c", "-modfile=" + mf, "-o", bin}
+	}
 	if race {
 		bin = filepath.Join(bdir, "props-race.test")
 		scratch, mf, err := instrument(simDir)
@@ -182,6 +197,9 @@ func (k knownFile) match(prop, tag string) *knownFinding {
 func main() {
 	if r := os.Getenv("VERIF_ROOT"); r != "" {
 		root = r
+	}
+	if r := os.Getenv("VERIF_REPO"); r != "" {
+		repoDir = r
 	}
 	args := os.Args[1:]
 	if len(args) >= 2 && args[0] == "--replay" {
@@ -280,7 +298,7 @@ func checkCmd(id, tier string, seed uint64) int {
 			cmd := exec.Command(bin, "-test.run", "^TestWorker$", "-test.timeout", "0", "-sim.prop", id, "-sim.tier", tier,
 				"-sim.seed", fmt.Sprint(seed), "-sim.shard", fmt.Sprint(k), "-sim.shards", fmt.Sprint(n), "-sim.max", fmt.Sprint(maxRuns),
 				"-sim.budget", budget.String(), "-sim.out", out, "-sim.tmp", wtmp)
-			cmd.Env = append(os.Environ(), "GOMAXPROCS=2", "GORACE=halt_on_error=0 history_size=3 log_path="+filepath.Join(wtmp, "race"), "VERIF_REPO=/repo")
+			cmd.Env = append(os.Environ(), "GOMAXPROCS=2", "GORACE=halt_on_error=0 history_size=3 log_path="+filepath.Join(wtmp, "race"), "VERIF_REPO="+repoDir)
 			cmd.Dir = root
 			done := make(chan struct{})
 			var o []byte
@@ -383,7 +401,7 @@ func checkCmd(id, tier string, seed uint64) int {
 		shr := filepath.Join(tmp, "shrunk.json")
 		_ = os.Remove(shr)
 		if newViolations < 8 {
-			_, _ = run(root, append(os.Environ(), "GOMAXPROCS=2", "VERIF_REPO=/repo", "GORACE=halt_on_error=0 history_size=3 log_path="+filepath.Join(tmp, "race-shrink")), bin, "-test.run", "^TestShrink$", "-test.timeout", "10m", "-sim.shrink", cand, "-sim.out", shr)
+			_, _ = run(root, append(os.Environ(), "GOMAXPROCS=2", "VERIF_REPO="+repoDir, "GORACE=halt_on_error=0 history_size=3 log_path="+filepath.Join(tmp, "race-shrink")), bin, "-test.run", "^TestShrink$", "-test.timeout", "10m", "-sim.shrink", cand, "-sim.out", shr)
 		}
 		if b, err := os.ReadFile(shr); err == nil {
 			raw = b
@@ -445,7 +463,7 @@ func safe(s string) string {
 
 func replayOnce(bin, path, tmp string) (replayResult, error) {
 	out := filepath.Join(tmp, fmt.Sprintf("replay-%d.json", time.Now().UnixNano()))
-	o, err := run(root, append(os.Environ(), "GOMAXPROCS=2", "VERIF_REPO=/repo", "GORACE=halt_on_error=0 history_size=3 log_path="+filepath.Join(tmp, fmt.Sprintf("race-replay-%d", time.Now().UnixNano()))), bin, "-test.run", "^TestReplay$", "-test.timeout", "10m", "-sim.replay", path, "-sim.out", out, "-sim.attempts", attemptsFor(path))
+	o, err := run(root, append(os.Environ(), "GOMAXPROCS=2", "VERIF_REPO="+repoDir, "GORACE=halt_on_error=0 history_size=3 log_path="+filepath.Join(tmp, fmt.Sprintf("race-replay-%d", time.Now().UnixNano()))), bin, "-test.run", "^TestReplay$", "-test.timeout", "10m", "-sim.replay", path, "-sim.out", out, "-sim.attempts", attemptsFor(path))
 	var rr replayResult
 	b, rerr := os.ReadFile(out)
 	if rerr != nil {
@@ -570,7 +588,7 @@ func determinismCmd(args []string) int {
 		if s := os.Getenv("VERIF_SEED"); s != "" {
 			seed = s
 		}
-		o, err := run(root, append(os.Environ(), "GOMAXPROCS="+procs, "VERIF_REPO=/repo", "GORACE=halt_on_error=0 history_size=3 log_path="+filepath.Join(wtmp, "race")), bin, "-test.run", "^TestWorker$", "-test.timeout", "0", "-sim.prop", id,
+		o, err := run(root, append(os.Environ(), "GOMAXPROCS="+procs, "VERIF_REPO="+repoDir, "GORACE=halt_on_error=0 history_size=3 log_path="+filepath.Join(wtmp, "race")), bin, "-test.run", "^TestWorker$", "-test.timeout", "0", "-sim.prop", id,
 			"-sim.seed", seed, "-sim.shard", "0", "-sim.shards", "1", "-sim.max", fmt.Sprint(n), "-sim.budget", "30m", "-sim.out", out, "-sim.digests", "-sim.tmp", wtmp)
 		b, rerr := os.ReadFile(out)
 		if rerr != nil {
